@@ -99,13 +99,13 @@ def check(rep):
     rnd = random.Random(rep.seed + 18)
     texts = list(EXTRA)
     texts += [("documented", t) for t in gi.DOCUMENTED if "schulz_zimm" in t]
-    texts += [(a, t) for a, t, _ in gi.cases(rnd.randrange(1 << 30), 60 if quick else 3000, family="schulz_zimm") if a != "defective_list"]
+    texts += [(a, t) for a, t, _ in gi.cases(rnd.randrange(1 << 30), 60 if quick else 700, family="schulz_zimm") if a != "defective_list"]
     stats = {"molecules": 0, "atoms": 0, "residues": 0, "links": 0, "model_runs": 0, "near_threshold_skipped": 0, "draw_failed": 0}
     by_arche = {}
     skipped = {"rejected": 0, "no_graph": 0, "no_start": 0}
     evaluations = explored_leaves = exhaustive = 0
     distinct = set()
-    seeds = 2 if quick else 6
+    seeds = 2 if quick else 4
     for arche, text in texts:
         try:
             with fw.time_limit(20):
@@ -140,9 +140,9 @@ def check(rep):
                     if not same:
                         rep.fail("oracle", "two generations with one seed differ", ident, expected="identical molecules", observed="different")
         # all choice sequences for small forced draws (bounded instances)
-        if arche in dict(EXTRA) or rnd.random() < (0.25 if quick else 0.5):
+        if arche in dict(EXTRA) or rnd.random() < (0.25 if quick else 0.3):
             forced = [rnd.choice([45.3, 77.7, 131.9])] * 8
-            leaves, trunc = al.explore(sag, forced, max_leaves=40 if quick else 600, timeout=30)
+            leaves, trunc = al.explore(sag, forced, max_leaves=40 if quick else 250, timeout=30)
             exhaustive += not trunc
             for script, run in leaves:
                 if run.need == -1:
